@@ -159,6 +159,29 @@ static void run_grid(int d, const GridSpec& gs, int hist, const TimeCfg& tc, boo
   }
 }
 
+// unnormalised states whose magnitude changes by many orders from node to node (a steeply falling spectrum): exactly at a node the
+// x-indexed forms must agree with the node-indexed form to the rounding of THAT node's state, whatever its neighbours hold
+static void steep_nodes() {
+  for (int d : {2, 3, 5}) for (int pat = 0; pat < 3; pat++) {
+    std::vector<double> grid = {0.5, 1.25, 2.0, 3.5, 6.0};
+    const double MAG[3][5] = {{1e12, 1, 1e-9, 1e3, 1e-14}, {1, 1e-17, 1e17, 1, 1e-3}, {1e-200, 1e-180, 1e-195, 1e-150, 1e-170}};
+    Sol s(5, d, 1, 0.25); s.Set_xrange(grid);
+    for (unsigned ix = 0; ix < 5; ix++) s.setrho(ix, 0, scaled(probe(d, ix % 3), MAG[pat][ix]));
+    s.Evolve(0.75);
+    squids::SQuIDS::expectationValueDBuffer ubuf(d); int np = d * (d - 1) / 2;
+    for (unsigned ix = 0; ix < 5; ix++) for (int w = 0; w < 2; w++) {
+      count("evaluations"); count("steep_node_queries");
+      std::vector<double> opc = w ? probe(d, 2) : unit(d, 1); SU_vector O = mkvec(d, opc);
+      double node = s.GetExpectationValue(O, 0, ix); std::vector<bool> avr(np, true), avr2(np, true);
+      double g[4] = {s.GetExpectationValueD(O, 0, grid[ix]), s.GetExpectationValueD(O, 0, grid[ix], ubuf), s.GetExpectationValueD(O, 0, grid[ix], 1e300, avr), s.GetExpectationValueD(O, 0, grid[ix], ubuf, 1e300, avr2)};
+      double tol = 1e-11 * d * d * maxabs(s.getrho(ix, 0)) * maxabs(opc);
+      SU_vector is = s.GetIntermediateState(0, grid[ix]); double es = maxdiff(comps(is), s.getrho(ix, 0));
+      for (int q = 0; q < 4; q++) if (!(std::fabs(g[q] - node) <= tol)) { violation("GetExpectationValueD:disagrees-with-node-form-at-node:steep-magnitudes:d=" + std::to_string(d), J().i("d", d).i("pattern", pat).i("node", ix).i("overload", q).num("x_form", g[q]).num("node_form", node).num("tol", tol).done()); break; }
+      if (!(es <= 1e-14 * maxabs(s.getrho(ix, 0)))) violation("GetIntermediateState:not-the-node-state-at-a-node:steep-magnitudes:d=" + std::to_string(d), J().i("d", d).i("pattern", pat).i("node", ix).num("err", es).done());
+    }
+  }
+}
+
 // thread-local scratch buffers of the buffer-less overloads: solvers of different dimension queried alternately on one (fresh) thread
 static void scratch_sequences() {
   for (int d1 = 2; d1 <= 6; d1++) for (int d2 = 2; d2 <= 6; d2++) for (int d3 = 2; d3 <= 6; d3++) {
@@ -214,6 +237,7 @@ int main(int argc, char** argv) {
     run_grid(d, g, hist, tcs[ti], ar.reduced || hist >= GH_AFTER_LIN);
   }
   if (ar.shard == 0 && !ar.reduced) scratch_sequences();
+  if (ar.shard == 0) steep_nodes();
   finish();
   return 0;
 }
